@@ -368,6 +368,11 @@ def run(plan: dict[str, Any]) -> dict[str, Any]:
                 R.violate("C32.counter", "counter-skipped", f"counters of successive requests: {counters}")
         if counters and counters[0] != 0:
             R.violate("C32.counter", "first-counter!=0", f"{counters}")
+        for x in gw.reused_counter:
+            R.violate("C32.counter", "new-request-under-the-counter-of-an-accepted-one",
+                      f"the server accepted a request with counter {x['seq']} and then received a different request "
+                      f"({x['cemi'].hex()}) with the same counter")
+            break
     # indications go to the indication callback only (never returned as a result): covered by own-answer-only; count them
     R.probes["indications_delivered"] += len(indications)
     for rec in results:
